@@ -89,8 +89,13 @@ class SortableDict(col.MutableMapping):
                 raise KeyError('%r is duplicate' % key)
 
             if index is not None:
-                # We are re-locating.
+                # We are re-locating.  Removing the key shifts the keys
+                # after it down by one, so a position derived from pos_key
+                # must be adjusted to still point at pos_key.
+                old_index = self.index(key)
                 del self[key]
+                if (pos_key is not None) and (old_index < index):
+                    index -= 1
             else:
                 # We are updating
                 self._values[key] = value
